@@ -53,7 +53,7 @@ ASSUMPTIONS = [
 ]
 REAL = ["Arguments.from_call", "Call / LazyCall / compute_args_id", "BaseClientDataStore (size routing, content key, LRU)", "Mem/SQLite client data stores", "state backends (invocation DTOs, results)", "three serializers", "DistributedInvocation.run"]
 STUBBED = ["clock", "uuid4", "history writer threads run inline"]
-PROBES = ["externalised", "inline", "lru_hit", "store_read_after_eviction", "mutated_after_submit", "spellings_compared", "identity_pairs", "near_collision_pairs", "reserved_prefix_string"]
+PROBES = ["externalised", "inline", "lru_hit", "store_read_after_eviction", "mutated_after_submit", "spellings_compared", "identity_pairs", "near_collision_pairs", "purge_by_other_party", "reserved_prefix_string"]
 
 SERIALIZERS = ["JsonSerializer", "PickleSerializer", "JsonPickleSerializer"]
 
@@ -242,6 +242,21 @@ def run(seed: int, params: dict, replay: dict | None = None) -> dict:
                 back = worker.client_data_store.resolve(k1)
                 if back != v2:
                     viol.append({"signature": f"C15/{stack}/reference-resolves-to-other-content/{serializer}", "message": f"reference resolves to {repr(back)[:200]}, created from {repr(v2)[:200]}; {desc_conf}"})
+                if worker is not client and rng.random() < 0.35:
+                    # the other party purges the shared store; content serialised again afterwards must be stored again
+                    # (a process-local cache entry does not prove that the shared store still has the blob)
+                    bump("probe.purge_by_other_party")
+                    client.client_data_store.purge()
+                    subs.clear()  # the externalised arguments of earlier submissions are gone with the purge
+                    k3 = worker.client_data_store.serialize(copy.deepcopy(v))
+                    for who, app_ in (("client", client), ("worker", worker)):
+                        try:
+                            back3 = app_.client_data_store.resolve(k3)
+                            if back3 != v2:
+                                viol.append({"signature": f"C15/{stack}/reference-resolves-to-other-content/after-purge/{serializer}", "message": f"after a purge by the other party the {who} resolves a fresh reference to {repr(back3)[:120]}, created from {repr(v2)[:120]}; {desc_conf}"})
+                        except Exception as e:  # noqa: BLE001
+                            viol.append({"signature": f"C15/{stack}/reference-does-not-resolve/after-purge-by-other-party/{serializer}", "message": f"a value serialised after the other party purged the shared store got reference {k3[:50]} which the {who} cannot resolve: {type(e).__name__}: {str(e)[:120]}; {desc_conf}"})
+                            break
                 # near-collisions: long common prefix, different tail (a key derived from a prefix or a truncation collides)
                 n_pre = rng.choice([threshold, threshold + rng.randint(1, 9), threshold * 2, 1024 + rng.randint(0, 7), 4096 + rng.randint(0, 7), 20000 + rng.randint(0, 7), 70000 + rng.randint(0, 7)])
                 where_ = rng.choice(["tail", "tail", "middle", "head"])
